@@ -18,7 +18,7 @@ struct Rec {
   cur: usize,
   log: Vec<(String, usize, Sx)>,
   tap: Vec<(usize, Sx)>,
-  probes: Vec<(usize, usize, usize, bool)>,
+  probes: Vec<(usize, usize, usize, bool, usize, usize)>,
   snaps: Vec<(usize, Vec<bool>, Vec<usize>)>,
   n_child: usize,
 }
@@ -147,7 +147,11 @@ fn cold(env: &Env, s: usize) -> Observable<'static, V> {
     let mut idx = 0usize;
     for ev in script.iter() {
       let alive = o.is_subscribed();
-      rec.lock().unwrap().probes.push((s, att, idx, alive));
+      {
+        let mut r = rec.lock().unwrap();
+        let (ll, cur) = (r.log.len(), r.cur);
+        r.probes.push((s, att, idx, alive, ll, cur));
+      }
       if src.polls && !alive {
         return;
       }
@@ -159,7 +163,9 @@ fn cold(env: &Env, s: usize) -> Observable<'static, V> {
       idx += 1;
     }
     let alive = o.is_subscribed();
-    rec.lock().unwrap().probes.push((s, att, idx, alive));
+    let mut r = rec.lock().unwrap();
+    let (ll, cur) = (r.log.len(), r.cur);
+    r.probes.push((s, att, idx, alive, ll, cur));
   })
 }
 
@@ -701,8 +707,8 @@ fn run_scenario(x: &Sx) -> String {
     tap.push(Sx::L(vec![i(*t), e.clone()]));
   }
   let mut probes = vec![Sx::A("probes".into())];
-  for (s, a, p, al) in r.probes.iter() {
-    probes.push(Sx::L(vec![i(*s), i(*a), i(*p), b(*al)]));
+  for (s, a, p, al, ll, c) in r.probes.iter() {
+    probes.push(Sx::L(vec![i(*s), i(*a), i(*p), b(*al), i(*ll), i(*c)]));
   }
   let mut snaps = vec![Sx::A("snaps".into())];
   for (c, bs, ns) in r.snaps.iter() {
